@@ -128,6 +128,15 @@ def gen(tier, rng):
 
 
 def judge(req, impl, f, prev):
+    t_ = req.split(' ')
+    if t_[0] in ('copy', 'copy_b') and impl.startswith('ok') and ' ## ' in impl:
+        # no copy may store an entry under a name that paths cannot address ('..', '.', empty)
+        for rec in impl.split(' ## ', 1)[1].split('|'):
+            if rec.startswith('E '):
+                k = rec.split(' ')[1]
+                if k != '2f' and any(c in ('2e2e', '2e', '') for c in k[2:].split('2f')):
+                    return ('-', "the copy stored an entry under the key " + bytes.fromhex(k).decode('utf8', 'replace') + " (a component '..' / '.' / empty: not addressable through abs)",
+                            'copy_follow_link_outside_source' if (t_[0] == 'copy_b' and t_[5:6] == ['1']) else None)
     j = c01.judge(req, impl, f, prev)        # move_p (incl. failure => unchanged) and everything else vs the reference
     if j:
         return j
